@@ -210,7 +210,7 @@ def parse_group(ctx):
         if k not in d:
             d[k] = [False, "parse_expr lost its %s clause" % k, b.loc()]
     # alternation: Choice::new(branches collected in push order)
-    ch = [1 for p, gs, r in paths if "Choice::new(Iterator::collect(" in r]
+    ch = [1 for p, gs, r in paths if "Choice::new(Iterator::collect(" in r or "Choice::new(Vec::new()" in strip_ver(r)]
     _rec(d, "choice-in-source-order", bool(ch) and not call_sites(b, lambda r: r.endswith("::rev") or r.endswith("::reverse") or r.endswith("::sort")), "several branches must become Choice::new(branches) in the order parsed", b.loc())
     return _emit(d)
 
@@ -570,5 +570,5 @@ def repeat_optimize(ctx):
     if b is not None:
         cl = ctx.body(b.path + "::{closure#0}")
         rs = {_sh(strip_ver(render(p.ret))) for p in ctx.walk(b).paths}
-        _rec(d, "Choice|maps-branches", cl is not None and {_sh(strip_ver(render(p.ret))) for p in ctx.walk(cl).paths} == {"optimize(a2, a1.0)"} and len(rs) == 1 and re.match(r"^(conv<.*>|op)\(Choice::Choice\{branches: Iterator::collect\(Iterator::map\(a1\.branches, closure [^\[]*\[a2\]\)\)\}\)$", next(iter(rs))) is not None, "Choice::optimize must be exactly Choice{branches: branches.map(optimize)} - the same branches in the same order (ordered choice prefers the earlier branch); found %s" % sorted(rs)[0][:160], b.loc())
+        _rec(d, "Choice|maps-branches", cl is not None and {_sh(strip_ver(render(p.ret))) for p in ctx.walk(cl).paths} == {"optimize(a2, ^a2)"} and len(rs) == 1 and re.match(r"^(conv<.*>|op)\(Choice::Choice\{branches: Iterator::collect\(Iterator::map\(a1\.branches, closure [^\[]*\[a2\]\)\)\}\)$", next(iter(rs))) is not None, "Choice::optimize must be exactly Choice{branches: branches.map(optimize)} - the same branches in the same order (ordered choice prefers the earlier branch); found %s" % sorted(rs)[0][:160], b.loc())
     return _emit(d)
